@@ -2,6 +2,7 @@
   C15 — ChaCha stream parameters round-trip, are isolated, and define stream equality.
 -/
 import CC.ChaCha.Wide
+import CC.Thm.C01
 namespace CC.Thm.C15
 open CC CC.Simd CC.ChaCha CC.ChaCha.Spec
 
@@ -86,5 +87,13 @@ theorem stream64_eq_refill (s : Guts) (dr : Nat) : stream64Eq (refill Mach.ref s
 example : stream64Eq { b := 1, c := 2, d := pack32 0 5 6 7 } { b := 1, c := 2, d := pack32 9 4 6 7 } = true ∧
           stream32Eq { b := 1, c := 2, d := pack32 0 5 6 7 } { b := 1, c := 2, d := pack32 9 4 6 7 } = false := by
   decide
+
+
+/-- **Source tie.**  The definitions of `guts.rs` this property is about (`refill`, `refill4` = `refill_wide_impl`,
+    `inc_block_ct`, `d0123`, `add_pos`, `set_stream_param` / `get_stream_param`, the stream-equality predicates, the
+    constructors) are the ones REGENERATED from /repo's current source: same statement as `CC.Thm.C01.source_code_match`
+    and `source_kernels_match`, registered here so that a change of that code breaks an obligation of this property too. -/
+theorem source_code_match : type_of% @CC.Thm.C01.source_code_match ∧ type_of% @CC.Thm.C01.source_kernels_match :=
+  ⟨CC.Thm.C01.source_code_match, CC.Thm.C01.source_kernels_match⟩
 
 end CC.Thm.C15
